@@ -2,7 +2,7 @@
 # usage: tools/seedeval.sh <PROP> <mN> [extra props to run]
 # Confirms a seeded change produced by a sub-agent in /tmp/seed_<PROP>/SEED and runs the checks against it.
 set -u
-P=$1; M=$2; shift 2
+P=$1; M=$2; OUT=${3:-$2}; shift 2; [ $# -gt 0 ] && shift
 WT=/tmp/seed_$P
 S=$WT/SEED
 [ -d "$S" ] || S=$WT/_SEED
@@ -13,7 +13,7 @@ export GOPROXY=off
 mv $WT/SEED $WT/_SEED 2>/dev/null; S=$WT/_SEED; DIFF=$S/$M.diff; DEMO=$S/${M}_demo_test.go
 place=$(head -5 $DEMO | grep -o 'place in: *[^ ]*' | sed 's/place in: *//' | head -1); place=${place:-.}
 git -C $WT checkout -q -- . ; git -C $WT clean -fdq -e _SEED
-echo "== $P/$M demo placed in '$place'"
+echo "== $P/$M -> $P-$OUT demo placed in '$place'"
 # 1. demo passes on unchanged code
 cp $DEMO $WT/$place/zz_seed_demo_test.go
 ( cd $WT/$place && go test -vet=off -count=1 -run "TestSeed${M^}\$|TestSeed${M^^}\$" . 2>&1 | tail -3 ) > /tmp/seedeval_clean.log; clean_rc=$(grep -c "^ok" /tmp/seedeval_clean.log)
@@ -32,7 +32,7 @@ rm -f $WT/$place/zz_seed_demo_test.go
 git -C $WT checkout -q -- .
 echo "   demo on clean: $([ $clean_rc -ge 1 ] && echo PASS || echo NOT-PASS)   suite with change: $([ $suite_ok = 1 ] && echo PASS || echo FAIL)   demo with change: $([ $mut_fail -ge 1 ] && echo FAIL-as-required || echo DID-NOT-FAIL)"
 if [ $clean_rc -ge 1 ] && [ $suite_ok = 1 ] && [ $mut_fail -ge 1 ]; then
-  D=/verif/seeded/$P-$M; mkdir -p $D; cp $DIFF $D/patch.diff; cp $DEMO $D/demo_test.go
+  D=/verif/seeded/$P-$OUT; mkdir -p $D; cp $DIFF $D/patch.diff; cp $DEMO $D/demo_test.go
   # run the checks against /repo with the change applied, then undo
   git -C /repo apply $DIFF || { echo "does not apply to /repo"; exit 3; }
   res=""
